@@ -154,10 +154,11 @@ def r_nvm_layout(rep, prog):
     else:
         s, c, cmp_ = guard
         # find the passing edge: the one that dominates ZoneAlloc::create
-        passing = [d for d in b.succ(s) if lib.cfg.edge_dominates(b, (s, d), zb)]
-        if not passing:
-            # `a || b` chains: the failing edge goes to the error; accept if zb is unreachable via the failing edge's target only
-            passing = [d for d in b.succ(s) if zb in lib.cfg.reachable_from(b, d)]
+        # `a || b` chains: the failing edge goes to the error block, so the construction is reachable from exactly one outcome
+        passing = [d for d in b.succ(s) if zb in lib.cfg.reachable_from(b, d)]
+        rep.check(len(passing) == 1, rule, "create|region-guard-decides", "the construction is reachable from one outcome of the size test only",
+                  "the allocator is constructed on both outcomes of the region-size test (e.g. `small && misaligned`): a region that is "
+                  "too small for its own metadata is accepted", b.term(s).get("span"))
         pol = lib.bool_edge_polarity(b, s, passing[0]) if passing else None
         lhs, rel, rhs = cmp_ if pol else lib.negate_rel(cmp_)
         d = T._lin_add(T.linear(rhs), T.linear(lhs), -1)
